@@ -17,7 +17,11 @@ any shape, and `Model/Materialize.lean` + `Model/Columns.lean`, the flat model t
              Sub-streams: `typed` (every numpy storage dtype with full-width values), `wrap` (known finding C02-F1),
              `shaped` (factors that are not a single column: nested dicts, reserved keys, DataFrames, 2-d arrays with /
              without column_names, custom format / format_reduced / drop_field / spans_intercept, pre-encoded values,
-             `None`, dict-valued categorical factors, poly / bs inside interactions; matrices without any column), every
+             `None`, dict-valued categorical factors, poly / bs inside interactions; matrices without any column),
+             `quoted` (Python-expression factors over a back-quoted column whose name is not an identifier AND the column
+             whose name equals the identifier the first is rewritten to - I(`a b` - `a_b`), {`w.1` * w_1},
+             np.maximum(...), both orders, twin back-quoted or bare: a fixed table of 64 cases + 5% random; the oracle
+             recomputes the factor from BOTH data columns with plain numpy), every
              output type of each materializer (`narwhals` included) and every supported input container (DataFrame, dict
              of columns / of scalars, numpy record array, narwhals wrapper).
 * `shape-error` malformed stream: a factor on which `_encode_evaled_factor` must raise (array with more than two
@@ -142,7 +146,12 @@ RULE = (
     "dict depth 2 and 3 with int keys, reserved __ keys, DataFrame, 2-d array with/without column_names, custom format, inner "
     "FactorValues with its own format, keys that print alike, pre-encoded, spans_intercept with drop_field and format_reduced, "
     "None, dict of categorical columns) or, on frames with 5+ rows and distinct values, poly(x,2|3) / bs(x,df=4); 4%: a matrix "
-    "without columns (`0`, `0 + none(x)`). shape-error (max(6, n/30)): one malformed factor in a random formula. "
+    "without columns (`0`, `0 + none(x)`). "
+    "quoted (64 fixed + max(45, n/20) random): 1-2 pairs (odd name, sanitized twin: `a b`/a_b, `w.1`/w_1, `2x`/_2x, `u-v`/u_v) "
+    "present in the data with different values in every row; 8 expression templates over both columns (difference both ways, "
+    "product, np.maximum both ways, affine mixes; twin back-quoted or bare) alone, in interactions with categorical / numeric "
+    "factors, with literal scalings, all outputs / materializers / containers / after a prior call. "
+    "shape-error (max(6, n/30)): one malformed factor in a random formula. "
     "encode (n/3): top-level column / dict (depth <= 3) / DataFrame / 2-d array (column_names none, right, short, long) / 3-d "
     "array; keys from 13 labels (str, int, reserved, printing alike); metadata on the top level and 40% of inner dicts "
     "(8 format templates, format_reduced incl. empty, reduced, spans_intercept, drop_field present / absent / missing, encoded). "
@@ -200,7 +209,7 @@ def two(x):
     return {"p": x, "q": x * x}
 
 
-CONTEXT = {"two": two}
+CONTEXT = {"two": two, "np": numpy}
 
 # numeric atoms: source text -> (normalised expr, numpy semantics over the frame)
 NUM_ATOMS = {
@@ -211,6 +220,44 @@ NUM_ATOMS = {
     "{{{v}-{w}}}": ("{v} - {w}", lambda d, v, w: {None: d[v] - d[w]}),
     "two({v})": ("two({v})", lambda d, v, w: {"p": d[v], "q": d[v] * d[v]}),
 }
+
+
+# Python-expression factors that mention a back-quoted column whose name is NOT an identifier (`a b`) together with the
+# column whose name EQUALS the identifier the first one is rewritten to for evaluation (a_b), both present in the data
+# with different values. The alias of a back-quoted name must never shadow a real column: the factor is computed from
+# BOTH data columns. (odd name, its sanitized twin); {P} = the odd name in back-quotes, {Q} = the twin, back-quoted or bare.
+QUOTED_PAIRS = [("a b", "a_b"), ("w.1", "w_1"), ("2x", "_2x"), ("u-v", "u_v")]
+# normalised factor expression (as ast.unparse spaces it) -> plain numpy semantics over the two data columns
+QUOTED_ATOMS = {
+    "I({P} - {Q})": lambda p, q: p - q,
+    "I({Q} - {P})": lambda p, q: q - p,
+    "{P} * {Q}": lambda p, q: p * q,          # written `{{ ... }}` in the formula
+    "{Q} * {P} + {P}": lambda p, q: q * p + p,
+    "np.maximum({P}, {Q})": lambda p, q: numpy.maximum(p, q),
+    "np.maximum({Q}, {P})": lambda p, q: numpy.maximum(q, p),
+    "I({P} * 2 + {Q})": lambda p, q: p * 2 + q,
+    "I({Q} + {P} * 4 - {Q} * 2)": lambda p, q: q + p * 4 - q * 2,
+}
+
+
+def quoted_source(tmpl, p, q, quote_q):
+    """(formula source, normalised factor expression) of one quoted atom"""
+    expr = tmpl.format(P=f"`{p}`", Q=(f"`{q}`" if quote_q else q))
+    bare = not (expr.startswith("I(") or expr.startswith("np."))
+    return ("{" + expr + "}" if bare else expr), expr
+
+
+def quoted_semantics(expr, data):
+    nums = data["num"]
+    for p, q in QUOTED_PAIRS:
+        if p in nums and q in nums:
+            for tmpl, fn in QUOTED_ATOMS.items():
+                for quote_q in (True, False):
+                    if quoted_source(tmpl, p, q, quote_q)[1] == expr:
+                        a = numpy.array([ffloat(x) for x in nums[p]])
+                        b = numpy.array([ffloat(x) for x in nums[q]])
+                        return fn(a, b)
+    return None
 
 
 def cat_atoms(v):
@@ -230,6 +277,9 @@ def atom_semantics(expr, data):
     for v in cats:
         if expr in cat_atoms(v):
             return ("cat", v)
+    qs = quoted_semantics(expr, data)
+    if qs is not None:
+        return ("num", {None: qs})
     d = {k: numpy.array([ffloat(x) for x in vals]) for k, vals in nums.items()}
     names = sorted(nums)
     for src, (norm, fn) in NUM_ATOMS.items():
@@ -943,8 +993,73 @@ def gen_encode_case(rng):
 
 
 
+def add_quoted_pair(rng, data, pair):
+    """both columns of the pair, holding different values in every row"""
+    p, q = pair
+    n = data["nrows"]
+    data["num"][p] = [fstr(rng.randint(-4, 6)) for _ in range(n)]
+    data["num"][q] = [fstr(Fraction(data["num"][p][i]) + rng.choice([-7, -3, 2, 5, 10])) for i in range(n)]
+
+
+def gen_quoted_matrix_case(rng, tier):
+    """a matrix case with Python-expression factors over a back-quoted non-identifier column AND its sanitized twin"""
+    maxrows = 6 if tier == "quick" else 25
+    data = gen_data(rng, rng.randint(1, maxrows))
+    pairs = rng.sample(QUOTED_PAIRS, rng.choice([1, 1, 2]))
+    for pair in pairs:
+        add_quoted_pair(rng, data, pair)
+    terms, seen = [], set()
+    for i in range(rng.randint(1, 4)):
+        atoms = []
+        for j in range(rng.choice([1, 1, 2, 2, 3])):
+            if j == 0 and (i == 0 or rng.random() < 0.7):
+                p, q = rng.choice(pairs)
+                a = quoted_source(rng.choice(list(QUOTED_ATOMS)), p, q, rng.random() < 0.5)[0]
+            else:
+                a = gen_atom(rng, data, atoms)
+            if a not in atoms:
+                atoms.append(a)
+        if frozenset(atoms) in seen:
+            continue
+        seen.add(frozenset(atoms))
+        for lit in rng.sample(LITERALS, rng.choice([0, 0, 0, 1, 2])):
+            atoms.insert(rng.randrange(len(atoms) + 1), lit)
+        terms.append(":".join(atoms))
+    mat = rng.choice(["pandas", "pandas", "narwhals"])
+    c = dict(kind="matrix", data=data, formula=rng.choice(["", "", "0 + ", "1 + "]) + " + ".join(terms),
+             efr=rng.random() < 0.5, output=rng.choice(["pandas", "numpy", "sparse"] + (["narwhals"] if mat == "narwhals" else [])),
+             cluster=rng.random() < 0.3, mat=mat, quoted=True)
+    if rng.random() < 0.15:
+        set_container(rng, c)
+    if rng.random() < 0.1:
+        set_prior(rng, c)
+    return c
+
+
+def quoted_fixed_cases():
+    """the fixed table: every quoted atom x every pair x twin back-quoted / bare, alone, in an interaction with a
+    categorical column, scaled and next to another numeric column, cycling through rank settings, outputs, materializers"""
+    outs = ["pandas", "numpy", "sparse"]
+    k = 0
+    for p, q in QUOTED_PAIRS:
+        for tmpl in QUOTED_ATOMS:
+            for quote_q in (True, False):
+                atom = quoted_source(tmpl, p, q, quote_q)[0]
+                data = {"nrows": 3, "cat": {"A": {"levels": ["u", "v"], "codes": [0, 1, 0], "declared": k % 2 == 0}},
+                        "num": {"x": ["1", "-2", "3"], p: ["1", "2", "3"], q: ["10", "-20", "1/2"]}}
+                formula = ["0 + " + atom, atom + ":A", "0 + 2:" + atom + ":x + A", "1 + A:" + atom + ":0.5 + `" + p + "` + " + q][k % 4]
+                mat = "narwhals" if k % 5 == 4 else "pandas"
+                yield dict(kind="matrix", data=data, formula=formula, efr=(k // 2) % 2 == 0,
+                           output="narwhals" if (mat == "narwhals" and k % 3 == 0) else outs[k % 3],
+                           cluster=False, mat=mat, quoted=True)
+                k += 1
+
+
 def cases(rng, tier):
     n = {"quick": 900, "thorough": 9000, "search": 200}[tier]
+    yield from quoted_fixed_cases()
+    for i in range(max(45, n // 20)):
+        yield gen_quoted_matrix_case(rng, tier)
     for i in range(n):
         yield gen_matrix_case(rng, tier)
     for i in range(n // 2):
@@ -974,7 +1089,7 @@ def _max_literals(formula):
 
 def describe(c):
     if c["kind"] == "matrix":
-        typed = ",wrap" if c.get("wrap") else ",typed" if c["data"].get("dtype") else ",shaped" if c.get("shaped") else ""
+        typed = ",wrap" if c.get("wrap") else ",typed" if c["data"].get("dtype") else ",shaped" if c.get("shaped") else ",quoted" if c.get("quoted") else ""
         typed += "," + c["container"] if c.get("container") else ""
         typed += ",after-prior-call" if c.get("prior") else ""
         return f"matrix{typed},{c['mat']},{c['output']},efr={int(c['efr'])},maxlit={_max_literals(c['formula'])}"
